@@ -31,8 +31,43 @@ ASSUMPTIONS = [
 ALL = ["create", "fix", "trim", "update"]
 
 
+def _paren_complex(d):
+    return d[0] == "complex" and float(d[1]) != 0.0
+
+
 def signature(case):
-    return ()
+    """black >= 24 drops the parentheses of a parenthesised expression that is the only element of a list
+    (`[(1+0j)]` -> `[1 + 0j]`), see known finding F36"""
+    sigs = set()
+
+    def lists_written(s):
+        if s["op"] == "in":
+            yield [e for e in s["events"]]
+        if s["op"] == "getitem":
+            per = {}
+            for k, so, x in s["events"]:
+                per.setdefault((repr(k), so), []).append(x)
+            for (k, so), xs in per.items():
+                if so == "in":
+                    yield xs
+                else:
+                    for x in xs:
+                        yield from (y[1] for y in gv.walk(x) if y[0] in ("list", "vec"))
+        else:
+            for e in s["events"]:
+                yield from (y[1] for y in gv.walk(e) if y[0] in ("list", "vec"))
+        if s.get("prev_desc") is not None:
+            yield from (y[1] for y in gv.walk(s["prev_desc"]) if y[0] in ("list", "vec"))
+
+    for s in case["prog"]["sites"]:
+        for xs in lists_written(s):
+            distinct = []
+            for x in xs:
+                if x not in distinct:
+                    distinct.append(x)
+            if len(distinct) == 1 and _paren_complex(distinct[0]):
+                sigs.add("complex-sole-list-element")
+    return sigs
 
 
 def _flags():
